@@ -950,6 +950,8 @@ class ConeBeamGeometry(DivergentBeamGeometry, AxisOrientedGeometry):
         else:
             self._det_axes_init_arg = None
 
+        self._det_curvature_radius_arg = det_curvature_radius
+
         # Compute the transformed system and the transition matrix. We
         # transform only those vectors that were not explicitly given.
         vecs_to_transform = []
@@ -1540,7 +1542,8 @@ class ConeBeamGeometry(DivergentBeamGeometry, AxisOrientedGeometry):
         return ConeBeamGeometry(apart, dpart,
                                 src_radius=self.src_radius,
                                 det_radius=self.det_radius,
-                                det_curvature_radius=self.det_curvature_radius,
+                                det_curvature_radius=(
+                                    self._det_curvature_radius_arg),
                                 pitch=self.pitch,
                                 axis=self.axis,
                                 offset_along_axis=self.offset_along_axis,
